@@ -137,14 +137,17 @@ OnDecode(ev) ==
       tainted == ev.bid >= 1       \* the batch continues a sub-stream the consumer has a hole in (outside C07's domain)
       spliced == ev.bid = 2        \* the altered batch makes a reader read the IPC bytes of another sub-stream (outside the domain)
       SameAs(lo, ln) == ln = ev.n /\ (Len(ev.out) = ev.n /\ Len(lo) = ln => Equivalent(lo, ev.out))
-      v == If(ev.oc = "panic" /\ ~spliced /\ (faulted \/ ~tainted), V("C07", "ConsumerPanic", ev))
+      \* (C07 quantifies over a VALID prefix followed by one altered batch)
+      \* judged: the first altered batch after a valid prefix, and unaltered batches whose sub-streams are intact
+      judgedNow == ~spliced /\ ((faulted /\ healthy) \/ (~faulted /\ ~tainted))
+      v == If(ev.oc = "panic" /\ judgedNow, V("C07", "ConsumerPanic", ev))
            \cup If(ev.oc = "panic" /\ ~faulted /\ healthy, Vs(RTProps, "ConsumerPanicOnValidBatch", ev))
            \cup If(ev.oc = "error" /\ ~faulted /\ healthy, Vs(RTProps, "ValidBatchRejected", ev) \cup V("C07", "WellFormedBatchRejected", ev))
            \cup If(ev.oc = "ok" /\ ~faulted /\ healthy /\ ev.n # ev.b, Vs(RTProps, "ItemCountDiffers", ev))
            \cup If(ev.oc = "ok" /\ ~faulted /\ healthy /\ ev.n = ev.b /\ Len(ev.out) = ev.n /\ Len(theIn) = ev.b
                      /\ ~Equivalent(theIn, ev.out),
                    Vs(RTProps, "NotEquivalent", ev))
-           \cup If(ev.oc = "ok" /\ faulted /\ ~spliced /\ ev.a = 1 /\ ev.n < ev.b, V("C07", "SuccessWhileDiscardingMainRecord", ev))
+           \cup If(ev.oc = "ok" /\ faulted /\ judgedNow /\ ev.a = 1 /\ ev.n < ev.b, V("C07", "SuccessWhileDiscardingMainRecord", ev))
            \cup If(ev.oc = "ok" /\ ~faulted /\ healthy /\
                    \E j \in DOMAIN ladder : ladder[j].oc = "error" /\ ladder[j].flag = 0 /\ ladder[j].bid = 0,
                    V("C14", "RefusalNotRecognisableAsMemoryLimit", ev))
